@@ -508,7 +508,17 @@ def normalize_contraction_generic_tuple(red_op, bin_op, reduced_vars, terms):
         if not isinstance(v, Contraction):
             continue
 
-        # fuse operations without distributing
+        # fuse operations without distributing, unless that would capture
+        # same-named variables (a sub-term shared between two reductions
+        # carries the same bound names in both)
+        if v.reduced_vars and (
+            not v.reduced_vars.isdisjoint(reduced_vars)
+            or any(
+                not frozenset(rv.name for rv in v.reduced_vars).isdisjoint(t.inputs)
+                for t in terms[:i] + terms[i + 1 :]
+            )
+        ):
+            continue
         if (v.red_op is ops.null and bin_op is v.bin_op) or (
             bin_op is ops.null and v.red_op in (red_op, ops.null)
         ):
